@@ -171,7 +171,9 @@ Init == \E c \in Configs : Fresh(c)
 udpVars == <<assoc, declared, client, relayed, replies, ndg, nmr>>
 hsVars  == <<method, authed, sentValid, exec, nrep>>
 
-Obs(tok, rep, ex, res) == last' = [tok |-> tok, rep |-> rep, ex |-> ex, res |-> res]
+\* dev: name of the deviation this step relied on ("" for a step of the ideal design)
+ObsD(tok, rep, ex, res, d) == last' = [tok |-> tok, rep |-> rep, ex |-> ex, res |-> res, dev |-> d]
+Obs(tok, rep, ex, res) == ObsD(tok, rep, ex, res, "")
 Stay(tok, ph, rep) ==   \* a step that only changes the phase
   /\ phase' = ph /\ UNCHANGED <<cfg, hsVars, udpVars>> /\ Obs(tok, rep, "", "")
 
@@ -215,7 +217,8 @@ Greet(tok) ==
             ELSE /\ method' = a
                  /\ phase' = IF a = "noauth" THEN "req" ELSE "auth"
                  /\ UNCHANGED <<cfg, authed, sentValid, exec, nrep, udpVars>>
-                 /\ Obs(tok, <<IF a = "noauth" THEN "M0" ELSE "M2">>, "", "")
+                 /\ ObsD(tok, <<IF a = "noauth" THEN "M0" ELSE "M2">>, "", "",
+                         IF cfg.auth /\ a = "noauth" THEN "DevEmptyListDefaultsToNoAuth" ELSE "")
 
 (* ---- username / password (UserPassAuthenticator.Authenticate) -------------*)
 Auth(tok) ==
@@ -226,11 +229,12 @@ Auth(tok) ==
              [] OTHER ->
                 /\ sentValid' = (sentValid \/ Matches(cfg, tok.k))
                 /\ IF Accepts(cfg, tok.k)
-                     THEN phase' = "req" /\ authed' = TRUE /\ Obs(tok, <<"A0">>, "", "")
+                     THEN phase' = "req" /\ authed' = TRUE
+                          /\ ObsD(tok, <<"A0">>, "", "", IF tok.k = "emptypw" THEN "DevEmptyPasswordMatches" ELSE "")
                      ELSE phase' = "closed" /\ authed' = authed /\ Obs(tok, <<"A1">>, "", "")
                 /\ UNCHANGED <<cfg, method, exec, nrep, udpVars>>
      \* a request sent instead of credentials: first byte 5 is not sub-negotiation version 1
-     \/ /\ tok.t = "R" /\ Stay(tok, "closed", <<>>)
+     \/ /\ tok.t = "R" /\ tok.k = "full" /\ Stay(tok, "closed", <<>>)
 
 (* ---- request (Handler.readRequest + dispatch) ----------------------------*)
 DialReply(d) == CASE d = "ok" -> "R0" [] d = "refused" -> "R4" [] d = "timeout" -> "R6" [] d = "dns" -> "R4"
@@ -288,10 +292,12 @@ Datagram(tok) ==
   /\ IF assoc = "closed"
        THEN UNCHANGED <<client, relayed>> /\ Obs(tok, <<>>, "", "gone")
        ELSE IF "DevFirstSenderBecomesClient" \in Dev
-         THEN /\ client' = IF client = "none" THEN tok.s ELSE client
+         THEN LET d == IF IpOf(tok.s) # "own" THEN "DevFirstSenderBecomesClient" ELSE "" IN
+              /\ client' = IF client = "none" THEN tok.s ELSE client
               /\ IF (~declared \/ IpOf(tok.s) = "own") /\ tok.k = "ok"
-                   THEN relayed' = Append(relayed, tok.s) /\ Obs(tok, <<>>, "", "relayed")
-                   ELSE relayed' = relayed /\ Obs(tok, <<>>, "", "ignored")
+                   THEN relayed' = Append(relayed, tok.s) /\ ObsD(tok, <<>>, "", "relayed", d)
+                   ELSE relayed' = relayed
+                        /\ ObsD(tok, <<>>, "", "ignored", IF client = "none" THEN d ELSE "")
          ELSE IF IpOf(tok.s) # "own"
            THEN UNCHANGED <<client, relayed>> /\ Obs(tok, <<>>, "", "ignored")
            ELSE /\ client' = IF client = "none" THEN tok.s ELSE client
@@ -305,7 +311,8 @@ MeshReply(tok) ==
   /\ UNCHANGED <<cfg, phase, hsVars, assoc, declared, client, relayed, ndg>>
   /\ IF assoc = "closed" THEN replies' = replies /\ Obs(tok, <<>>, "", "closed")
      ELSE IF client = "none" THEN replies' = replies /\ Obs(tok, <<>>, "", "noclient")
-     ELSE replies' = Append(replies, client) /\ Obs(tok, <<>>, "", "sent")
+     ELSE replies' = Append(replies, client)
+          /\ ObsD(tok, <<>>, "", "sent", IF IpOf(client) # "own" THEN "DevFirstSenderBecomesClient" ELSE "")
 
 (* ---- one server step for one client token ---------------------------------*)
 Step(tok) == WsUpgrade(tok) \/ Greet(tok) \/ Auth(tok) \/ Req(tok) \/ Eof(tok) \/ Datagram(tok) \/ MeshReply(tok)
@@ -345,11 +352,12 @@ OneReply == nrep <= 1 /\ (exec # "" => nrep = 1)
 
 EmitEdge ==
   Emit => PrintT("EDGE " \o ToJson(
-     [s |-> [cfg |-> cfg, phase |-> phase, method |-> method, authed |-> authed, exec |-> exec, assoc |-> assoc,
+     [s |-> [cfg |-> cfg, phase |-> phase, method |-> method, authed |-> authed, sentValid |-> sentValid,
+             exec |-> exec, assoc |-> assoc,
              declared |-> declared, client |-> client, relayed |-> relayed, replies |-> replies,
              ndg |-> ndg, nmr |-> nmr],
       a |-> last',
-      t |-> [cfg |-> cfg', phase |-> phase', method |-> method', authed |-> authed', exec |-> exec',
-             assoc |-> assoc', declared |-> declared', client |-> client', relayed |-> relayed',
+      t |-> [cfg |-> cfg', phase |-> phase', method |-> method', authed |-> authed', sentValid |-> sentValid',
+             exec |-> exec', assoc |-> assoc', declared |-> declared', client |-> client', relayed |-> relayed',
              replies |-> replies', ndg |-> ndg', nmr |-> nmr']]))
 =============================================================================
